@@ -1,6 +1,8 @@
 package e4
 
 import (
+	"strconv"
+	"math/big"
 	"fmt"
 	"net/http"
 	"regexp"
@@ -157,6 +159,35 @@ func (e *Engine) oracles(i int, fail failFn, method, path string, browser bool, 
 					}
 					if !has["name"] && !has["stream"] && f[0] != ty+"_downstream" {
 						return fail(i, "oracle", "C05", ty+"_downstream", f[0], "default name is not <type>_<stream>", "e4:C05:default-name")
+					}
+					// … and what the request does give is what the toxic gets (a default applies
+					// only when the field is left out): toxicity, name
+					nTox, toxLit, nName, nameVal := 0, "", 0, ""
+					for _, kv := range jv.Obj {
+						if strings.ToLower(kv.K) == "toxicity" {
+							nTox++
+							if kv.K == "toxicity" && kv.V.Kind == "num" {
+								toxLit = kv.V.Lit
+							}
+						}
+						if strings.ToLower(kv.K) == "name" {
+							nName++
+							if kv.K == "name" && kv.V.Kind == "str" {
+								nameVal = kv.V.S
+							}
+						}
+					}
+					if nTox == 1 && toxLit != "" {
+						if v, err := strconv.ParseFloat(toxLit, 32); err == nil {
+							r := new(big.Rat).SetFloat64(float64(float32(v)))
+							want := r.Num().String() + "/" + r.Denom().String()
+							if f[3] != want {
+								return fail(i, "oracle", "C05", want, f[3], "the toxicity given in the request ("+toxLit+") is not the toxic's toxicity", "e4:C05:given-toxicity")
+							}
+						}
+					}
+					if nName == 1 && nameVal != "" && !strings.ContainsAny(nameVal, "|()") && f[0] != nameVal {
+						return fail(i, "oracle", "C05", nameVal, f[0], "the name given in the request is not the toxic's name", "e4:C05:given-name")
 					}
 				}
 			}
